@@ -101,7 +101,7 @@ class LoopRun(schedlib.Run):
                 self.stuck = dict(t.split("=") for t in ln.split()[1:])
             elif ln.startswith("e ") and " UAF " in ln:
                 self.uaf = ln
-            elif ln.startswith(("pool ", "next", "hash")):
+            elif ln.startswith(("pool ", "next", "hash", "ops")):
                 self.extra.append(ln)
 
 
@@ -260,33 +260,64 @@ def oracle_tasks(case, run, loop_thread=0):
     return bad
 
 
+def trace_pos(run, pred):
+    """positions (among all output lines) of the trace lines satisfying pred(words)"""
+    res = []
+    for pos, ln in enumerate(run.lines):
+        if ln.startswith("t "):
+            w = ln.split()
+            if pred(w):
+                res.append(pos)
+    return res
+
+
 def oracle_quit(case, run, kind):
-    """C05's text on one run (kind=loop: quit ends the loop; kind=elt: start / destroy)."""
+    """C05's text on one run (kind=loop: quit() ends the loop and is never lost; kind=elt: startLoop()
+    returns the child's loop, the destructor stops and joins without hanging and without touching a
+    destroyed loop).  Returns list of (key, message); key None = a plain violation."""
     bad = []
+    evs = events_of(run)
+    destroy_call = [pos for pos, ti, w in evs if w[:2] == ["call", "destroy"]]
+    destroy_ret = [pos for pos, ti, w in evs if w[:2] == ["ret", "destroy"]]
+
+    def uaf_key():
+        # F-4's signature: a quit() (the destructor's or the user's) continues on the destroyed loop
+        u = next(((pos, ti, w) for pos, ti, w in evs if w and w[0] == "UAF"), None)
+        if u is None:
+            return None
+        pos, ti, w = u
+        return F4_KEY if "quit()" in w else None
+
     if run.crash:
         if run.uaf or "use-after" in run.crash:
-            return [(F4_KEY, "USE-AFTER-DESTROY: %s; %s" % (run.uaf or "", run.crash))]
+            return [(uaf_key(), "USE-AFTER-DESTROY: %s; %s" % ((run.uaf or "").strip(), run.crash))]
         return [(None, "implementation crashed / sanitizer report: %s" % run.crash)]
     if not run.complete:
         return [(None, "incomplete output")]
     if run.uaf:
-        bad.append((F4_KEY, "USE-AFTER-DESTROY: %s" % run.uaf))
+        bad.append((uaf_key(), "USE-AFTER-DESTROY: %s (the stack-allocated EventLoop of the loop thread no longer exists)"
+                    % run.uaf[2:].strip()))
     if run.steplimit:
         bad.append((None, "livelock (step limit)"))
     if run.deadlock:
         bad.append((None, "DEADLOCK: %s" % "; ".join("T%d %s" % (k, " ".join(v)) for k, v in sorted(run.pending.items()))))
-    evs = events_of(run)
-    quit_ret = [pos for pos, ti, w in evs if w[:2] == ["ret", "quit"]]
     quit_call = [pos for pos, ti, w in evs if w[:2] == ["call", "quit"]]
-    enter_pos = next((pos for pos, ti, w in evs if w[0] == "enter"), None)
-    returned = any(w[0] == "loop-returned" for pos, ti, w in evs)
+    returns = [pos for pos, ti, w in evs if w[0] == "loop-returned"]
     if kind == "loop":
-        if run.stuck is not None and quit_call:
-            pre = enter_pos is not None and all(p < enter_pos for p in quit_call)
-            bad.append((F3_KEY if pre else None,
-                        "QUIT LOST: quit() was called %d time(s)%s, the loop sits in poll and only the time-out can end it "
-                        "(quit_=%s)" % (len(quit_call), " (all before loop() was entered)" if pre else "", run.stuck.get("quit"))))
-        if returned and not quit_call:
+        # the moment loop() starts: the loop thread passes the entry point (pts=1) / the "enter" event
+        entries = trace_pos(run, lambda w: w[2] == "T0" and w[3] == "point" and w[4] == "loop_entry") or \
+            [pos for pos, ti, w in evs if w[0] == "enter"]
+        if run.stuck is not None:
+            last_ret = max(returns) if returns else -1
+            lost = [p for p in quit_call if p > last_ret]
+            if lost:
+                last_entry = max(entries) if entries else -1
+                pre = all(p < last_entry for p in lost) and run.stuck.get("quit") == "0"
+                bad.append((F3_KEY if pre else None,
+                            "QUIT LOST: quit() was called %d time(s) since loop() last returned%s; the loop sits in poll and only "
+                            "the time-out can end it (quit_=%s)" % (len(lost), " (all before loop() executed its entry code)" if pre else "",
+                                                                   run.stuck.get("quit"))))
+        if returns and not any(q < returns[0] for q in quit_call):
             bad.append((None, "loop() returned although quit() was never called"))
     else:
         started = [w for pos, ti, w in evs if w[0] == "started"]
@@ -295,13 +326,102 @@ def oracle_quit(case, run, kind):
                 bad.append((None, "startLoop() returned a loop that is null / not the new thread's: %s" % " ".join(w)))
         if run.stuck is not None:
             if run.stuck.get("joining") == "1":
-                bad.append((F3_KEY, "DESTRUCTOR HANGS: ~EventLoopThread is blocked in join, the loop thread sits in poll with quit_=%s "
-                            "(the destructor's quit() was overwritten by loop()'s reset)" % run.stuck.get("quit")))
-            elif not started and any(w[0] == "start" for w in []):
-                pass
-        if any(w[:2] == ["call", "destroy"] for pos, ti, w in evs) and not any(w[:2] == ["ret", "destroy"] for pos, ti, w in evs) \
-                and run.stuck is None and not run.deadlock and not run.steplimit:
+                entries = trace_pos(run, lambda w: w[2] == "T1" and w[3] == "point" and w[4] == "loop_entry")
+                pre = bool(destroy_call) and run.stuck.get("quit") == "0" and (not entries or destroy_call[0] < entries[0])
+                bad.append((F3_KEY if pre else None,
+                            "DESTRUCTOR HANGS: ~EventLoopThread is blocked in join, the loop thread sits in poll with quit_=%s%s"
+                            % (run.stuck.get("quit"), " (the destructor's quit() was overwritten by loop()'s reset)" if pre else "")))
+            elif not started:
+                bad.append((None, "startLoop() has not returned and nothing can run but a poll time-out"))
+        if destroy_call and not destroy_ret and run.stuck is None and not run.deadlock and not run.steplimit:
             bad.append((None, "~EventLoopThread did not return"))
+    return bad
+
+
+def oracle_pool(case, run):
+    """C05's text on a kind=pool run: N distinct loops on N distinct threads, strict round-robin, equal
+    hash codes -> same loop, N = 0 -> base loop; every loop accepts a task and runs it on its thread;
+    destruction joins without hanging.  Independent of the Coq model."""
+    bad = []
+    if run.crash:
+        return ["implementation crashed / sanitizer report: %s" % run.crash]
+    if not run.complete:
+        return ["incomplete output"]
+    if run.deadlock or run.steplimit:
+        return ["pool start / destruction does not terminate: %s" % ("DEADLOCK" if run.deadlock else "step limit")]
+    n = int(hdr_get(case.header, "n", "0"))
+    calls = int(hdr_get(case.header, "calls", "0"))
+    _, _, _, hashes = parse_case(case)
+    ops = []
+    for line in case.ops:
+        w = line.split()
+        if w and w[0] == "O":
+            ops = w[1:]
+    info, nxt, hsh, opr = None, None, None, None
+    for ln in run.lines:
+        w = ln.split()
+        if not w:
+            continue
+        if w[0] == "pool" and len(w) > 1 and w[1].startswith("n="):
+            info = dict(t.split("=") for t in w[1:])
+        elif w[0] == "next":
+            nxt = [int(x) for x in w[1:]]
+        elif w[0] == "hash":
+            hsh = [int(x) for x in w[1:]]
+        elif w[0] == "ops":
+            opr = [int(x) for x in w[1:]]
+    if info is None or nxt is None or hsh is None or (ops and opr is None):
+        return ["pool output missing"]
+    if "pool destroyed" not in run.lines:
+        bad.append("the pool was not destroyed")
+    if n == 0:
+        if info.get("loops") != "1" or info.get("base_in_all") != "1":
+            bad.append("empty pool: getAllLoops() is not [baseLoop]: %s" % info)
+        if any(x != -1 for x in nxt + hsh + (opr or [])):
+            bad.append("empty pool: a call returned something else than the base loop")
+        return bad
+    if info.get("loops") != str(n) or info.get("distinct_owner_threads") != str(n):
+        bad.append("pool of %d threads: %s loops owned by %s distinct threads" % (n, info.get("loops"), info.get("distinct_owner_threads")))
+    if len(nxt) != calls:
+        bad.append("expected %d getNextLoop results, got %d" % (calls, len(nxt)))
+    for i, x in enumerate(nxt):
+        if x != i % n:
+            bad.append("round-robin: call %d of getNextLoop() returned loop %d, expected loop %d (N=%d): %s" % (i + 1, x, i % n, n, nxt))
+            break
+    for k in range(0, max(0, len(nxt) - n + 1)):
+        if len(set(nxt[k:k + n])) != n:
+            bad.append("calls %d..%d of getNextLoop() do not return %d distinct loops: %s" % (k + 1, k + n, n, nxt[k:k + n]))
+            break
+    for h, x in zip(hashes, hsh):
+        if x == -3:
+            bad.append("getLoopForHash(%d) returned two different loops for the same hash code" % h)
+        elif x != h % n:
+            bad.append("getLoopForHash(%d) returned loop %d, expected %d (N=%d)" % (h, x, h % n, n))
+    by_hash = {}
+    c = calls
+    for o, x in zip(ops, opr or []):
+        if o == "n":
+            if x != c % n:
+                bad.append("round-robin disturbed in a mixed sequence: getNextLoop() call %d returned %d, expected %d (ops %s -> %s)"
+                           % (c + 1, x, c % n, " ".join(ops), opr))
+                break
+            c += 1
+        else:
+            h = int(o[1:])
+            if by_hash.setdefault(h, x) != x:
+                bad.append("hash code %d mapped to loops %d and %d" % (h, by_hash[h], x))
+            if x != h % n:
+                bad.append("getLoopForHash(%d) returned loop %d, expected %d" % (h, x, h % n))
+    ran = {}
+    for pos, ti, w in events_of(run):
+        if w[0] == "pooltask":
+            ran.setdefault(int(w[1]), []).append(w[3])
+    for i in range(n):
+        if len(ran.get(i, [])) != 1:
+            bad.append("loop %d of the pool ran the task given to it %d times" % (i, len(ran.get(i, []))))
+    owners = [v[0] for v in ran.values() if v]
+    if len(set(owners)) != len(owners) or "T0" in owners:
+        bad.append("pool tasks did not run each on its own loop thread: %s" % sorted(ran.items()))
     return bad
 
 
